@@ -45,8 +45,14 @@ def scenario_for(inp, obname, out):
                       [BIND_OK, {'replies': [{'id': 'req', 'op': okres(7)}]}])
         return ('panic:conn.rs:unrecognized op id', 'an operation other than entry/reference/done under the ID of a running search panics the connection driver',
                 case, lambda v: (f"driver: {v['driver']}" if v['driver'] == 'panic' else None))
+    if 'running search keeps its ID' in obname:
+        case = script([BIND, stream_start([]), {'do': 'next'}, {'do': 'stream_last_id'}, {'do': 'snapshot'}],
+                      [BIND_OK, {'replies': [{'id': 'req', 'op': ENTRY}]}])
+        return ('running-search-id-released', 'the message ID of a search that is still running is no longer in the in-use set (a wrapped-around counter can hand it to a second operation)',
+                case, lambda v: (f"search ID {step(v, 'stream_last_id')} running, in-use IDs: {step(v, 'snapshot')['inuse']}" if step(v, 'snapshot') and step(v, 'stream_last_id') not in step(v, 'snapshot')['inuse'] else None))
     if 'result delivery releases' in obname or ('releases exactly that ID' in obname):
-        case = script([BIND, {'do': 'with_timeout', 'ms': 60}, {'do': 'delete', 'dn': 'dc=x'}, {'do': 'sleep', 'ms': 300}, {'do': 'snapshot'}],
+        # the caller's future is dropped from outside (no library timeout, hence no scrub); the reply arrives afterwards
+        case = script([BIND, {'do': 'spawn_delete', 'dn': 'dc=x'}, {'do': 'abort'}, {'do': 'sleep', 'ms': 300}, {'do': 'snapshot'}],
                       [BIND_OK, {'delay_ms': 200, 'replies': [{'id': 'req', 'op': okres(11)}]}])
         return ('late-result-id-not-released', 'the ID of an operation whose caller is no longer waiting when the reply arrives stays reserved',
                 case, lambda v: (f"in-use IDs: {step(v, 'snapshot')['inuse']}" if step(v, 'snapshot') and step(v, 'snapshot')['inuse'] else None))
